@@ -141,6 +141,12 @@ func (g *gen) expr(ty string, d int) string {
 		switch g.intn(4, "arrk") {
 		case 0:
 			g.kinds["slice"] = true
+			if g.intn(3, "index value") == 0 {
+				// the index is one expression whose value is not an int (a range, a nil-padded range, an array of indices)
+				recv := g.expr("arr", d-1)
+				g.n++
+				return recv + "[" + fmt.Sprintf("mk(%d, %s)", g.n, rapid.SampledFrom([]string{"(0:2)", "(1:)", "(:1)", "(::-1)"}).Draw(g.t, "range index")) + "]"
+			}
 			return g.expr("arr", d-1) + "[" + g.marker("int") + ":" + g.marker("int") + "]"
 		case 1:
 			g.kinds["list-chain"] = true
@@ -395,6 +401,47 @@ var fixedOrder = []OrderCase{
 	{Src: "%{1: mk(1, 1), 1: mk(2, 2), [1]: mk(3, 3), [1]: mk(4, 4)}", N: 4},
 	{Src: "f(mk(1, 1),\n  k: mk(3, 3),\nmk(2, 2),\n q: mk(4, 4))", N: 4},
 	{Src: "o.m(mk(1, 1), z: mk(2, 2),\nq: mk(3, 3),\n      k: mk(4, 4))", N: 4},
+}
+
+// valuePrograms: the order of reading a variable and evaluating the operand that reassigns it is visible in the value.
+var valuePrograms = [][2]string{
+	{"x := 1; x += (x := 100); x", "101"}, {"x := 1; [x += (x := 10), x]", "[11, 11]"}, {"z := 0; f2 := {|a, b| [a, b]}; f2(z -= (z += 10), z)", "[-10, -10]"},
+	{"n := 5; n *= (n := 7); n", "35"}, {"x := 2; y := x + (x := 5); [x, y]", "[5, 7]"}, {"x := 2; y := (x := 5) + x; [x, y]", "[5, 10]"}, {"a := [1, 2, 3]; i := 0; a[(i += 1)] + a[(i += 1)]", "5"},
+	{"x := 3; x -= (x := 1) * 2; x", "1"}, {"s := \"a\"; s += (s := \"b\"); s", "\"ab\""}, {"x := 1; x **= (x := 3); x", "1"}, {"q := [1]; q += (q := [2]); q", "[1, 2]"},
+	{"it := [(0:2), (1:)]._iter; a := [7, 8, 9]; [a[it.next], a[it.next]]", "[[7, 8], [8, 9]]"}, {"c := 0; a := [7, 8, 9]; [a[(c += 1) && (0:2)], c]", "[[7, 8], 1]"},
+}
+
+func TestValuePrograms(t *testing.T) {
+	vt.SkipIfReplay(t)
+	for i, p := range valuePrograms {
+		if !vt.Mine(i + 1) {
+			continue
+		}
+		vt.Eval()
+		vt.Class("value program (read order of reassigned variables)")
+		vt.NonTrivial(p[0], func() any { return p[0] })
+		c := ReadCase{Src: p[0], Want: p[1]}
+		if sig, detail := judgeValue(&c); sig != "" {
+			vt.Record(sig, detail, map[string]any{"value": c})
+		}
+	}
+}
+
+func judgeValue(c *ReadCase) (sig, detail string) {
+	return interp.Guard(func() (string, string) {
+		for r := 0; r < 3; r++ {
+			o := interp.Shared().Run(c.Src, interp.Opts{})
+			got := o.Show()
+			if o.Kind == interp.Value {
+				got = interp.SafeInspect(o.Obj)
+			}
+			if got != c.Want {
+				c.Got = got
+				return "order:value-shows-wrong-read-order", fmt.Sprintf("%s gave %s; reading the variable before evaluating the operand that reassigns it gives %s", c.Src, got, c.Want)
+			}
+		}
+		return "", ""
+	}, func() { vt.Discard("an evaluation of this case ran out of its budget (inconclusive)") })
 }
 
 func TestFixedOrderPrograms(t *testing.T) {
@@ -664,6 +711,7 @@ func TestReproducibilityCorpus(t *testing.T) {
 
 type ReadCase struct {
 	Src   string `json:"src"`
+	Want  string `json:"want,omitempty"`
 	Reads int    `json:"reads"`
 	Got   string `json:"got,omitempty"`
 }
@@ -783,6 +831,7 @@ func TestReplay(t *testing.T) {
 			Order *OrderCase `json:"order"`
 			Repro *ReproCase `json:"repro"`
 			Reads *ReadCase  `json:"reads"`
+			Value *ReadCase  `json:"value"`
 		}
 		if err := json.Unmarshal(data, &c); err != nil {
 			panic(err)
@@ -792,6 +841,9 @@ func TestReplay(t *testing.T) {
 		}
 		if c.Reads != nil {
 			return judgeReads(c.Reads, 4)
+		}
+		if c.Value != nil {
+			return judgeValue(c.Value)
 		}
 		sig, detail := "", ""
 		err := judgeRepro([]ReproCase{*c.Repro}, 32, 6, func(s, d string, _ ReproCase) { sig, detail = s, d })
